@@ -679,6 +679,21 @@ def judge(ctx: Ctx, cases: list, v: dict, iv: dict, skip=()):
     return drift
 
 
+class Stages:
+    """Wall seconds per stage, kept in the evidence (and printed when VERIF_TIMING is set)."""
+
+    def __init__(self, ctx: Ctx):
+        self.ctx, self.t, self.d = ctx, ctx.elapsed(), {}
+
+    def done(self, name: str) -> None:
+        now = self.ctx.elapsed()
+        self.d[name] = round(now - self.t, 1)
+        self.t = now
+        self.ctx.note("stage_seconds", self.d)
+        if os.environ.get("VERIF_TIMING"):
+            print(f"  [stage {name}: {self.d[name]}s]", flush=True)
+
+
 # ------------------------------------------------------------------------- the check
 def run(ctx: Ctx) -> None:
     ctx.assume("indentation is made of spaces; bytes inside a line come from the generator's pools",
@@ -690,6 +705,7 @@ def run(ctx: Ctx) -> None:
     io = IoLab(ctx)
     dsh_len = len(cc.dsh_lines)
     rng = ctx.rng
+    st = Stages(ctx)
 
     # ---- 1. model checking + enumeration (one TLC run) ---------------------------------------
     cfg = gen_cfg("all", 4, not ctx.quick, dsh_len)
@@ -703,6 +719,7 @@ def run(ctx: Ctx) -> None:
     ctx.require(len(cmd_cases) >= 7000 and len(io_cases) >= 1500,
                 f"too few cases from TLC: {len(cmd_cases)} commands, {len(io_cases)} structures")
 
+    st.done("tlc_enumeration")
     # ---- 2. spec -> code: every enumerated command through the real functions -----------------
     sh = ShLab(ctx)
     n_sh = ctx.pick(25, 400)
@@ -736,6 +753,7 @@ def run(ctx: Ctx) -> None:
                                                                      pick_contents(rng, cc.dsh_lines)),
                 "model": cmd_cases[len(cmd_cases) // 3]})
 
+    st.done("commands_on_real_functions")
     # ---- 3. spec -> code: every enumerated structure through script() / postprocess_script -----
     drift = 0
     for c in io_cases:
@@ -761,6 +779,7 @@ def run(ctx: Ctx) -> None:
             ctx.distinct(("io", c["ins"], c["outs"], c["td"]))
     ctx.sample({"source": "tlc-exhaustive structure", "case": io_cases[len(io_cases) // 2]})
 
+    st.done("structures_on_real_script")
     # ---- 4. code -> spec: larger generated texts and structures --------------------------------
     n_gen = ctx.pick(600, 6000)
     for _ in range(n_gen):
@@ -801,6 +820,7 @@ def run(ctx: Ctx) -> None:
             continue
         trace_batch.append({"kind": "io", "ins": ins, "outs": outs, "td": 1 if td else 0, "segs": segs, "res": res})
 
+    st.done("generated_cases_recorded")
     # ---- 5. real sh on generated texts, real Scheduler on script() ----------------------------
     gen_cmds = [c for c in trace_batch if c["kind"] == "cmd" and c.get("_text") is not None and c["_prefix"] == "EOF"]
     for c in rng.sample(gen_cmds, min(ctx.pick(25, 300), len(gen_cmds))):
@@ -853,6 +873,7 @@ def run(ctx: Ctx) -> None:
     ctx.note("scheduler_runs", e2e_done)
     ctx.require(e2e_done > 0 or ctx.violations, "no script() run completed on the real Scheduler")
 
+    st.done("sh_and_scheduler_runs")
     # ---- 6. negative controls + TLC validation of everything recorded --------------------------
     controls = {}
     src = next(c for c in trace_batch if c["kind"] == "cmd" and L(0, "eof", 0, 0, 0) in c["prep"])
@@ -904,6 +925,7 @@ def run(ctx: Ctx) -> None:
         ctx.sample({"source": "script() on a Scheduler", "ins": gsample["ins"], "outs": gsample["outs"],
                     "result": gsample["res"]})
 
+    st.done("tlc_trace_validation")
     # ---- 7. model-level controls: each law fails for the mutated model -------------------------
     ctl = []
     if not ctx.quick:
@@ -926,6 +948,7 @@ def run(ctx: Ctx) -> None:
                                  ctx.scratch, env=JVM_LONG, timeout=2400, heap="8g"),
                          "Script_Gen, commands of up to 5 lines")
         ctx.add_tlc(r)
+    st.done("tlc_model_controls_and_deeper_runs")
 
 
 def _no_dict(node):
